@@ -25,6 +25,9 @@ for m, src, d in (("c11", "pspinlock-c11.c", "MODEL_C11"), ("sync", "pspinlock-s
     UNITS.append(dict(id="spin_%s_null" % m, harness="spin.c", entry="h_null", sources=[src], enforce=None, replace=[], defines=[d], functions=[]))
     if m != "sim":
         UNITS.append(dict(id="spin_%s_lemma_exclusion" % m, harness="spin.c", entry="h_lemma_exclusion", sources=[src], enforce=None, replace=[], defines=[d], functions=[]))
+# initial state: a new c11 spinlock is free (unit shared with C18, where its allocation-failure exit matters)
+UNITS.append(dict(id="spin_c11_new", harness="../C18/misc2.c", entry="h_spin_new", sources=["pspinlock-c11.c"], enforce=None, replace=[], defines=["UNIT_SPIN_NEW"], canaries=2, timeout=300,
+                  functions=["p_spinlock_new", "p_spinlock_free"]))
 REQUIRE_CONFIGURED = ["pmutex-posix.c", "pspinlock-c11.c"]
 TECHNIQUE = "CBMC function contracts (DFCC): PMutex = exact wrapper of pthread_mutex (call-log refinement); spinlocks: lock invariant under a rely/guarantee environment step around every CAS/store, loop contract on the spin loop"
 LEVEL_TEXT = ("PMutex lock/trylock/unlock: exactly one pthread call of the right kind on the handle inside the object, result TRUE iff it returned 0, trylock never "
